@@ -71,6 +71,8 @@ UnlockMatch(A, C) ==    \* C15 (incl. "drops below a threshold => leaves the can
   /\ A.unlockQ = C.unlockQ /\ A.q.unlocks = C.q.unlocks /\ A.nonce = C.nonce
   /\ SameVals(A, C, LAMBDA x : << x.status, x.power, x.locking >>) /\ A.ranking = C.ranking /\ A.lockIdx = C.lockIdx
 TokensMatch(A, C) == A.tokens = C.tokens /\ A.thr = C.thr /\ A.hasAcc = C.hasAcc
+QueuesMatch(A, C) ==    \* C06 (the locking module's side of the hand-over: what is scheduled, what is due, the nonce)
+  /\ A.unlockQ = C.unlockQ /\ A.q = C.q /\ A.nonce = C.nonce
 
 Matches(A, C) ==
   /\ B("funds")   => FundsMatch(A, C)
@@ -79,6 +81,7 @@ Matches(A, C) ==
   /\ B("punish")  => PunishMatch(A, C)
   /\ B("unlock")  => UnlockMatch(A, C)
   /\ B("tokens")  => TokensMatch(A, C)
+  /\ B("queues")  => QueuesMatch(A, C)
 
 (* --- debugging aid: with Debug = TRUE a rejected step prints what differs (used when a replay is saved) --- *)
 TopFields == {"tokens", "thr", "lockIdx", "ranking", "valSet", "slashed", "pool", "unlockQ", "q", "nonce", "hasAcc"}
